@@ -579,7 +579,7 @@ static int push_args(Node *node) {
 
   // If the return type is a large struct/union, the caller passes
   // a pointer to a buffer as if it were the first argument.
-  if (node->ret_buffer && node->ty->size > 16)
+  if (node->ret_buffer && is_memory_class(node->ty))
     gp++;
 
   // Load as many arguments to the registers as possible.
@@ -589,7 +589,7 @@ static int push_args(Node *node) {
     switch (ty->kind) {
     case TY_STRUCT:
     case TY_UNION:
-      if (ty->size > 16) {
+      if (is_memory_class(ty)) {
         arg->pass_by_stack = true;
       } else {
         int ngp, nfp;
@@ -639,7 +639,7 @@ static int push_args(Node *node) {
 
   // If the return type is a large struct/union, the caller passes
   // a pointer to a buffer as if it were the first argument.
-  if (node->ret_buffer && node->ty->size > 16) {
+  if (node->ret_buffer && is_memory_class(node->ty)) {
     println("  lea %d(%%rbp), %%rax", node->ret_buffer->offset);
     push();
   }
@@ -1007,7 +1007,7 @@ static void gen_expr(Node *node) {
 
     // If the return type is a large struct/union, the caller passes
     // a pointer to a buffer as if it were the first argument.
-    if (node->ret_buffer && node->ty->size > 16)
+    if (node->ret_buffer && is_memory_class(node->ty))
       pop(argreg64[gp++]);
 
     for (Node *arg = node->args; arg; arg = arg->next) {
@@ -1018,7 +1018,7 @@ static void gen_expr(Node *node) {
       case TY_UNION:
         // Neither a struct passed in memory nor a zero-sized one
         // has been pushed for a register.
-        if (ty->size > 16 || ty->size == 0)
+        if (is_memory_class(ty) || ty->size == 0)
           continue;
 
         bool fp1 = has_flonum1(ty);
@@ -1087,7 +1087,7 @@ static void gen_expr(Node *node) {
 
     // If the return type is a small struct, a value is returned
     // using up to two registers.
-    if (node->ret_buffer && node->ty->size <= 16) {
+    if (node->ret_buffer && !is_memory_class(node->ty)) {
       copy_ret_buffer(node->ret_buffer);
       println("  lea %d(%%rbp), %%rax", node->ret_buffer->offset);
     }
@@ -1456,7 +1456,7 @@ static void gen_stmt(Node *node) {
       switch (ty->kind) {
       case TY_STRUCT:
       case TY_UNION:
-        if (ty->size <= 16)
+        if (!is_memory_class(ty))
           copy_struct_reg();
         else
           copy_struct_mem();
@@ -1499,7 +1499,7 @@ static void assign_lvar_offsets(Obj *prog) {
       switch (ty->kind) {
       case TY_STRUCT:
       case TY_UNION:
-        if (ty->size <= 16) {
+        if (!is_memory_class(ty)) {
           int ngp, nfp;
           struct_regs(ty, &ngp, &nfp);
           if (fp + nfp <= FP_MAX && gp + ngp <= GP_MAX) {
@@ -1744,7 +1744,7 @@ static void emit_text(Obj *prog) {
       switch (ty->kind) {
       case TY_STRUCT:
       case TY_UNION:
-        assert(ty->size <= 16);
+        assert(!is_memory_class(ty));
         if (ty->size == 0)
           break;
         if (has_flonum(ty, 0, 8, 0))
